@@ -1,0 +1,173 @@
+//go:build verif
+
+package filesystem
+
+// Contracts for the POSIX Directory type (property C17: synchronization never
+// reaches outside the root through in-root symbolic links). Comment-only file:
+// compiled only under the "verif" build tag, contains no code. The "//@" lines
+// are read by govc.
+//
+// What is stated here, function by function:
+//
+//  1. every *at system call wrapper passes its arguments to the system call
+//     unchanged (label "same");
+//  2. every Directory method hands to a wrapper (a) its own descriptor, (b) a
+//     name that is a single validated path component - no '/', not "." and
+//     not ".." - and (c) flags that forbid following a symbolic link at that
+//     component: O_NOFOLLOW for openat (or O_CREAT|O_EXCL, which POSIX
+//     defines to fail on an existing link), AT_SYMLINK_NOFOLLOW for
+//     fstatat/fchownat/fchmodat; mkdirat, unlinkat, symlinkat, readlinkat and
+//     renameat never follow the final component by definition. With a single
+//     component there is no intermediate component to follow either.
+//  3. a successful OpenDirectory yields a handle whose abstract position is
+//     the child, by that validated name, of the receiver's position.
+
+// validname(n) - n is a single path component that names neither the
+// directory nor its parent: n != "." && n != ".." && no '/' in n - is defined
+// next to the system-call contracts in govc/externs/unix.spec.
+
+// Abstract positions of directory handles. rootpos(p) is where the path-based
+// open of p (without following a link at its leaf) lands; childpos(q, n) is
+// the entry named n of the directory at q, not followed if it is a link.
+// dpos(h) is the position handle h was opened at (a ghost attribute of the
+// handle fixed at its creation; see the two clauses labelled "pos").
+//@ ufunc rootpos(p string) int
+//@ ufunc childpos(q int, n string) int
+//@ ufunc dpos(h *Directory) int
+
+//@ func ensureValidName
+//@   pure
+//@   ensures[valid] result == nil ==> validname(name)
+//@   ensures[complete] result != nil ==> !validname(name)
+
+// ---------------------------------------------------------------- wrappers
+
+//@ func openatRetryingOnEINTR
+//@   at call unix.Openat assert[same] arg0 == directory && arg1 == path && arg2 == flags && arg3 == mode
+//@ func mkdiratRetryingOnEINTR
+//@   at call unix.Mkdirat assert[same] arg0 == directory && arg1 == path && arg2 == mode
+//@ func renameatRetryingOnEINTR
+//@   at call unix.Renameat assert[same] arg0 == oldDirectory && arg1 == oldPath && arg2 == newDirectory && arg3 == newPath
+//@ func renameatNoReplaceRetryingOnEINTR
+//@   at call unix.Renameat2 assert[same] arg0 == oldDirectory && arg1 == oldPath && arg2 == newDirectory && arg3 == newPath && arg4 == unix.RENAME_NOREPLACE
+//@ func unlinkatRetryingOnEINTR
+//@   at call unix.Unlinkat assert[same] arg0 == directory && arg1 == path && arg2 == flags
+//@ func fstatatRetryingOnEINTR
+//@   at call unix.Fstatat assert[same] arg0 == directory && arg1 == path && arg2 == metadata && arg3 == flags
+//@ func fchmodatRetryingOnEINTR
+//@   at call unix.Fchmodat assert[same] arg0 == directory && arg1 == path && arg2 == mode && arg3 == flags
+//@ func fchownatRetryingOnEINTR
+//@   at call unix.Fchownat assert[same] arg0 == directory && arg1 == path && arg2 == uid && arg3 == gid && arg4 == flags
+//@ func symlinkatRetryingOnEINTR
+//@   at call syscall.Symlinkat assert[same] arg0 == target && arg1 == directory && arg2 == path
+//@ func readlinkatRetryingOnEINTR
+//@   at call syscall.Readlinkat assert[same] arg0 == directory && arg1 == path
+
+// ------------------------------------------------------- Directory methods
+
+//@ func (*Directory).CreateDirectory
+//@   at call mkdiratRetryingOnEINTR assert[component] arg0 == d.descriptor && arg1 == name && validname(arg1)
+
+//@ func (*Directory).CreateTemporaryFile
+//@   at call openatRetryingOnEINTR assert[component] arg0 == d.descriptor && validname(arg1)
+//@   at call openatRetryingOnEINTR assert[nofollow] (arg2 & unix.O_NOFOLLOW) != 0 || ((arg2 & unix.O_CREAT) != 0 && (arg2 & unix.O_EXCL) != 0)
+
+//@ func (*Directory).CreateSymbolicLink
+//@   at call symlinkatRetryingOnEINTR assert[component] arg1 == d.descriptor && arg2 == name && validname(arg2)
+
+//@ func (*Directory).SetPermissions
+//@   at call fchownatRetryingOnEINTR assert[component] arg0 == d.descriptor && arg1 == name && validname(arg1)
+//@   at call fchownatRetryingOnEINTR assert[nofollow] (arg4 & unix.AT_SYMLINK_NOFOLLOW) != 0
+//@   at call openatRetryingOnEINTR assert[component] arg0 == d.descriptor && arg1 == name && validname(arg1)
+//@   at call openatRetryingOnEINTR assert[nofollow] (arg2 & unix.O_NOFOLLOW) != 0 && (arg2 & unix.O_CREAT) == 0
+//@   at call fchmodatRetryingOnEINTR assert[component] arg0 == d.descriptor && arg1 == name && validname(arg1)
+//@   at call fchmodatRetryingOnEINTR assert[nofollow] (arg3 & unix.AT_SYMLINK_NOFOLLOW) != 0
+
+// open: "." is accepted only when a directory is requested (re-opening the
+// handle's own directory cannot traverse anything).
+//@ func (*Directory).open
+//@   at call openatRetryingOnEINTR assert[component] arg0 == d.descriptor && arg1 == name && (validname(arg1) || (wantDirectory && arg1 == "."))
+//@   at call openatRetryingOnEINTR assert[nofollow] (arg2 & unix.O_NOFOLLOW) != 0 && (arg2 & unix.O_CREAT) == 0
+//@   at call openatRetryingOnEINTR assert[dirflag] wantDirectory ==> (arg2 & unix.O_DIRECTORY) != 0
+//@   ensures[valid] result2 == nil ==> validname(name) || (wantDirectory && name == ".")
+//@   ensures[filemeta] result2 == nil && !wantDirectory ==> result1 != nil && result1.Name == name
+
+//@ func (*Directory).OpenDirectory
+//@   fresh result0
+//@   ensures[valid] result1 == nil ==> result0 != nil && (validname(name) || name == ".")
+//@   ensures[pos] result1 == nil ==> dpos(result0) == (name == "." ? dpos(d) : childpos(dpos(d), name))
+//@   ensures[failed] result1 != nil ==> result0 == nil
+
+//@ func (*Directory).OpenFile
+//@   ensures[valid] result2 == nil ==> validname(name)
+
+//@ func (*Directory).ReadContentMetadata
+//@   pure
+//@   fresh result0
+//@   ensures[valid] result1 == nil ==> validname(name) && result0 != nil && result0.Name == name
+
+//@ func (*Directory).readContentMetadata
+//@   pure
+//@   fresh result0
+//@   requires validname(name)
+//@   at call fstatatRetryingOnEINTR assert[component] arg0 == d.descriptor && arg1 == name && validname(arg1)
+//@   at call fstatatRetryingOnEINTR assert[nofollow] (arg3 & unix.AT_SYMLINK_NOFOLLOW) != 0
+//@   ensures[name] result1 == nil ==> result0 != nil && result0.Name == name
+
+// The names delivered by the operating system are single components; the
+// in-place filter keeps that.
+//@ func (*Directory).ReadContentNames
+//@   modifies d.exhausted
+//@   fresh result0
+//@   ensures[names] result1 == nil ==> forall k in 0..len(result0) :: validname(result0[k])
+//@   loop 1 modifies names[*]
+//@   loop 1 invariant[names] forall k in 0..len(names) :: validname(names[k])
+//@   loop 1 invariant[names] base(results) == base(names) && off(results) == off(names) && cap(results) == cap(names) && len(results) <= rangeindex + 1 && rangeindex < len(names)
+
+//@ func (*Directory).ReadContents
+//@   ensures[names] result1 == nil ==> forall k in 0..len(result0) :: result0[k] != nil && validname(result0[k].Name)
+//@   loop 1 invariant[names] forall k in 0..len(names) :: validname(names[k])
+//@   loop 1 invariant[names] forall k in 0..len(results) :: results[k] != nil && validname(results[k].Name)
+
+//@ func (*Directory).ReadSymbolicLink
+//@   at call readlinkatRetryingOnEINTR assert[component] arg0 == d.descriptor && arg1 == name && validname(arg1)
+//@   ensures[valid] result1 == nil ==> validname(name)
+
+//@ func (*Directory).RemoveDirectory
+//@   at call unlinkatRetryingOnEINTR assert[component] arg0 == d.descriptor && arg1 == name && validname(arg1)
+//@   at call unlinkatRetryingOnEINTR assert[kind] arg2 == unix.AT_REMOVEDIR
+
+//@ func (*Directory).RemoveFile
+//@   at call unlinkatRetryingOnEINTR assert[component] arg0 == d.descriptor && arg1 == name && validname(arg1)
+//@   at call unlinkatRetryingOnEINTR assert[kind] arg2 == 0
+
+// Rename: a location given by (directory, name) is addressed relative to that
+// directory's descriptor with a validated single component; a location given
+// by path (nil directory) is passed through unchanged relative to AT_FDCWD.
+//@ func Rename
+//@   at call renameatRetryingOnEINTR assert[source] arg1 == sourceNameOrPath && (sourceDirectory != nil ? arg0 == sourceDirectory.descriptor && validname(arg1) : arg0 == unix.AT_FDCWD)
+//@   at call renameatRetryingOnEINTR assert[target] arg3 == targetNameOrPath && (targetDirectory != nil ? arg2 == targetDirectory.descriptor && validname(arg3) : arg2 == unix.AT_FDCWD)
+//@   at call renameatNoReplaceRetryingOnEINTR assert[source] arg1 == sourceNameOrPath && (sourceDirectory != nil ? arg0 == sourceDirectory.descriptor && validname(arg1) : arg0 == unix.AT_FDCWD)
+//@   at call renameatNoReplaceRetryingOnEINTR assert[target] arg3 == targetNameOrPath && (targetDirectory != nil ? arg2 == targetDirectory.descriptor && validname(arg3) : arg2 == unix.AT_FDCWD)
+//@   at call renameatNoReplaceRetryingOnEINTR assert[noreplace] !replace
+//@   at call os.Lstat assert[target] targetDirectory == nil && arg0 == targetNameOrPath
+
+// ------------------------------------------------- path-based root opening
+
+// Open is the only path-based open: it is used for the synchronization root
+// (and its parent). Unless the caller explicitly allows a symbolic link at the
+// leaf, the open carries O_NOFOLLOW and never creates anything.
+//@ func Open
+//@   ensures[ok] result2 == nil ==> result0 != nil && result1 != nil
+//@   ensures[dir] result2 == nil && (result1.Mode & ModeTypeMask) == ModeTypeDirectory ==> unboxptr(result0, "Directory") != nil && fresh(unboxptr(result0, "Directory"))
+//@   at call openatRetryingOnEINTR assert[rootpath] arg0 == unix.AT_FDCWD && arg1 == path
+//@   at call openatRetryingOnEINTR assert[nofollow] (!allowSymbolicLinkLeaf ==> (arg2 & unix.O_NOFOLLOW) != 0) && (arg2 & unix.O_CREAT) == 0
+
+// OpenDirectory(path, false) yields a handle at rootpos(path) (definition of
+// the ghost attribute dpos for handles created by a path-based open).
+//@ func OpenDirectory
+//@   fresh result0
+//@   at call Open assert[same] arg0 == path && arg1 == allowSymbolicLinkLeaf
+//@   ensures[pos] result2 == nil && !allowSymbolicLinkLeaf ==> dpos(result0) == rootpos(path)
+//@   ensures[ok] result2 == nil ==> result0 != nil
+//@   ensures[failed] result2 != nil ==> result0 == nil
